@@ -206,7 +206,7 @@ def _gen_case(rng, tier):
             op.update(k=K())
         elif n in ("update", "update_extend"):
             a = arg()
-            op.update(a=a, kw=[] if (n == "update" and a[0] == "self") else kwargs())
+            op.update(a=a, kw=kwargs())
         elif n == "ior":
             op.update(a=arg())
         elif n in ("setdefault", "pop", "popall", "get", "getlist"):
